@@ -30,6 +30,7 @@ type c12Cfg struct {
 	PerPhase  int    `json:"per_phase"`
 	Phases    int    `json:"phases"`
 	SpacingUs int64  `json:"spacing_us"`
+	Window    int    `json:"window,omitempty"` // backlog mode: the sender keeps up to 2*Window packets inside the pacer at all times
 }
 
 type c12 struct{}
@@ -38,7 +39,7 @@ func init() { register(c12{}) }
 
 func (c12) ID() string { return "C12" }
 
-var c12Modes = []string{"inorder", "loss", "dup", "feedback", "churn", "many"}
+var c12Modes = []string{"inorder", "loss", "dup", "feedback", "churn", "many", "backlog"}
 
 func (c12) Gen(seed int64, tier string, avoid []string) *Plan {
 	p, r := newPlan("C12", seed, tier, avoid)
@@ -57,6 +58,13 @@ func (c12) Gen(seed int64, tier string, avoid []string) *Plan {
 	}
 	if cfg.Mode == "churn" {
 		cfg.PerPhase /= 4
+	}
+	if cfg.Mode == "backlog" {
+		// a closed-loop sender in front of the pacing interceptor: the queue is never empty (not at the end of a
+		// pacing interval, not while the heap is measured) and never longer than 2*Window
+		cfg.Kind = "pacing"
+		cfg.Window = pick(r, 500, 1000, 2000)
+		cfg.PerPhase *= 3
 	}
 	switch {
 	case avoidSet["c12-"+cfg.Kind+"-"+cfg.Mode], avoidSet["c12-"+cfg.Kind],
@@ -194,8 +202,18 @@ func (c12) Run(e *Env) {
 	var heap []uint64
 	var objs []uint64
 	var snaps []*cellWalker
+	sentN := 0 // backlog mode: packets handed to the pacer (nOut of them have come out)
 	measure := func() {
-		simrt.Sleep(600 * time.Millisecond) // let timers prune and queues drain
+		if cfg.Mode == "backlog" {
+			// measured with the standing backlog in place, at exactly the same fill every time
+			for sentN-nOut < 2*cfg.Window {
+				sendOne()
+				sentN++
+			}
+			simrt.Sleep(time.Microsecond) // the pacer's goroutine takes them off its hand-off channel
+		} else {
+			simrt.Sleep(600 * time.Millisecond) // let timers prune and queues drain
+		}
 		runtime.GC()
 		runtime.GC()
 		var ms runtime.MemStats
@@ -203,6 +221,12 @@ func (c12) Run(e *Env) {
 		heap = append(heap, ms.HeapAlloc)
 		objs = append(objs, ms.HeapObjects)
 		snaps = append(snaps, countCells(ch))
+		if df := os.Getenv("C12_DEBUG_FILE"); df != "" {
+			if f, err := os.OpenFile(df, os.O_APPEND|os.O_CREATE|os.O_WRONLY, 0o644); err == nil {
+				fmt.Fprintf(f, "seed=%d kind=%s mode=%s window=%d heap=%d objs=%d out=%d sent=%d now=%v\n", e.Plan.Seed, cfg.Kind, cfg.Mode, cfg.Window, ms.HeapAlloc, ms.HeapObjects, nOut, sentN, simNow())
+				f.Close()
+			}
+		}
 		if os.Getenv("C12_DEBUG") != "" {
 			fmt.Fprintf(os.Stderr, "C12 cells=%d %v\n", snaps[len(snaps)-1].total, snaps[len(snaps)-1].count)
 			for _, est := range rg.estimators {
@@ -217,8 +241,16 @@ func (c12) Run(e *Env) {
 	manyN := 0
 	for ph := 0; ph < cfg.Phases; ph++ {
 		for i := 0; i < cfg.PerPhase; i++ {
-			simrt.Sleep(us(cfg.SpacingUs))
+			if cfg.Mode != "backlog" {
+				simrt.Sleep(us(cfg.SpacingUs))
+			}
 			switch cfg.Mode {
+			case "backlog":
+				for sentN-nOut >= 2*cfg.Window {
+					simrt.Sleep(200 * time.Microsecond)
+				}
+				sendOne()
+				sentN++
 			case "inorder":
 				sendOne()
 				recvOne(rseq)
@@ -356,6 +388,22 @@ func (c12) Run(e *Env) {
 		return
 	}
 	limit := int64(perUnit*float64(cfg.PerPhase) + slack)
+	if cfg.Mode == "backlog" && len(heap) >= 7 {
+		// With a standing backlog the heap is a sawtooth even when nothing leaks (the pacer's slice slides through
+		// its backing array, which keeps released packets reachable until it is replaced), and a leak in an
+		// amortised container grows in steps: compare the envelope of the last three phases with that of the
+		// three before.  Both its top and its bottom must have risen by more than the sawtooth can explain
+		// (everything the backlog can keep reachable, generously 600 bytes per packet in flight).
+		n := len(heap)
+		lo := func(a []uint64) int64 { return int64(min(a[0], a[1], a[2])) }
+		hi := func(a []uint64) int64 { return int64(max(a[0], a[1], a[2])) }
+		rise := min(hi(heap[n-3:])-hi(heap[n-6:n-3]), lo(heap[n-3:])-lo(heap[n-6:n-3]))
+		bound := 3*limit + int64(2*cfg.Window)*600
+		if rise > bound {
+			e.Violatef("oracle", "c12:grows:"+cfg.Kind+":"+cfg.Mode, "%s with a standing backlog of %d packets: the heap envelope of the last three phases of %d packets lies %d bytes above that of the three phases before (limit %d); heap at phase ends: %v", cfg.Kind, 2*cfg.Window, cfg.PerPhase, rise, bound, heap)
+		}
+		return
+	}
 	if minGrowth > limit {
 		e.Violatef("oracle", "c12:grows:"+cfg.Kind+":"+cfg.Mode, "%s, workload %q: the heap after two GCs grew by at least %d bytes (%d objects) in every one of the last %d successive phases of %d packets each (limit %d); heap at phase ends: %v", cfg.Kind, cfg.Mode, minGrowth, minObj, 3, cfg.PerPhase, limit, heap)
 	}
